@@ -247,6 +247,16 @@ def part_generated(args):
         run("sd", hdr.SOMEIPSDHeader.parse, refcodec.enc_sd(0xC0, [e1], opts), f"unreferenced option at {pos}")
     e1 = dict(type=1, i1=0, i2=3, n1=2, n2=2, service=1, instance=2, major=3, ttl=4, last=5)
     run("sd", hdr.SOMEIPSDHeader.parse, refcodec.enc_sd(0xC0, [e1], [a, b, c, a, b]), "duplicated options instead of shared ones")
+    # the same entry more than once in a message (verbatim, and differing in one field only), adjacent and apart, with and
+    # without option runs: decoding and re-encoding keeps every entry, in order
+    ea = dict(type=1, i1=0, i2=1, n1=1, n2=1, service=1, instance=2, major=3, ttl=4, last=5)
+    eb = dict(type=6, i1=0, i2=0, n1=0, n2=0, service=6, instance=7, major=8, ttl=9, last=(3 << 16) | 10)
+    near = [dict(ea, **{k: v}) for k, v in (("type", 0), ("service", 2), ("instance", 3), ("major", 4), ("ttl", 5), ("last", 6),
+                                            ("n2", 0), ("i1", 1))]
+    for what, raw in ([("twice", [ea, ea]), ("three times", [ea, ea, ea]), ("apart", [ea, eb, ea]), ("two pairs", [ea, eb, ea, eb]),
+                       ("pair behind another", [eb, ea, ea]), ("without options twice", [eb, eb]), ("16 times", [eb] * 16)]
+                      + [(f"next to one differing in {sorted(set(x.items()) - set(ea.items()))[0][0]}", [ea, x, ea]) for x in near]):
+        run("sd", hdr.SOMEIPSDHeader.parse, refcodec.enc_sd(0xC0, raw, [a, b]), f"same entry {what}")
     # messages that look like the TCP "magic cookies" (and near misses), alone, in front of and behind another message
     other = refcodec.enc_someip(0x1234, 0x0001, 1, 2, 1, 0x00, 0, b"abc")
     for method, mtype in ((0x0000, 0x01), (0x8000, 0x02), (0x0000, 0x02), (0x8000, 0x01), (0x0001, 0x01)):
